@@ -266,7 +266,10 @@ theorem mergeNew_noPanic : ∀ (vs : List Vsys) (p1 : Config), NoPanic (mergeNew
 
 /-- `MergeSpoc` after the fix: no Go panic for ANY two decoded configurations. -/
 theorem mergeSpoc_noPanic (p1 p2 : Config) : NoPanic (mergeSpoc true p1 p2) := by
-  unfold mergeSpoc; exact mergeNew_noPanic _ _
+  unfold mergeSpoc
+  split
+  · exact noPanic_ok _
+  · exact mergeNew_noPanic _ _
 
 /-- `GetChanges`: `p1.Devices.Entries[0].Name` is only read for a vsys that was found in the first
 device, so the first device exists. -/
